@@ -1,10 +1,95 @@
-(** * C10 - recipe text is inert. *)
-From Coq Require Import List NArith Bool String.
-From RG Require Import Base.Str Model.Html Model.HtmlTok.
+(** * C10 - recipe text is inert: user strings never become markup.
+
+    [tokenize] (Model/HtmlTok.v) is the tokenizer specification: the HTML
+    standard's tokenizer restricted to text, tags with quoted attributes and
+    character references; [TError] marks anything outside that language.
+    Property theorems only; proofs are in Proofs/Html*.v. *)
+From Coq Require Import List ZArith NArith Bool String.
+From RG Require Import Base.Str Base.Num Gen.GenTemplates Model.Recipe Model.Units Model.Html Model.HtmlTok
+  Proofs.HtmlEscape Proofs.HtmlTemplates.
 Import ListNotations.
 
+(** ** Text *)
+(** In any text context (text [acc] gathered so far, anything after): the
+    escaped form of EVERY string [x] only extends the current text by exactly
+    [x] - no tag, no reference to anything else, no error. *)
+Theorem C10_escape_inert : forall x acc rest,
+  run (SData acc) (html_escape x ++ rest) = run (SData (acc ++ x)) rest.
+Proof. exact escape_inert_run. Qed.
+Print Assumptions C10_escape_inert.
+
+(** the same as a statement about token lists, up to merging adjacent text *)
+Theorem C10_escape_inert_merge : forall x rest,
+  merge_text (tokenize (html_escape x ++ rest)) = merge_text (Text x :: tokenize rest).
+Proof. exact escape_inert_merge. Qed.
+Print Assumptions C10_escape_inert_merge.
+
+Theorem C10_escape_inert_before_tag : forall x r,
+  tokenize (html_escape x) = flush x /\
+  tokenize (html_escape x ++ 60%N :: r) = flush x ++ tokenize (60%N :: r).
+Proof. intros x r. exact (conj (escape_inert_alone x) (escape_inert_before_tag x r)). Qed.
+Print Assumptions C10_escape_inert_before_tag.
+
+(** ** Attributes *)
+(** [quoteattr v] after [name=] is exactly one attribute whose decoded value
+    is [v], in any tag, after any attributes, whatever follows; for every [v]
+    without U+0000 (which the standard replaces by U+FFFD). *)
+Theorem C10_attr_inert_in_tag : forall tag attrs an v, ~ In 0%N v -> forall rest,
+  run (SBeforeAttrValue tag attrs an) (quoteattr v ++ rest)
+  = run (SAfterAttrValue tag (attrs ++ [(an, v)])) rest.
+Proof. exact attr_inert_run. Qed.
+Print Assumptions C10_attr_inert_in_tag.
+
+Theorem C10_attr_inert : forall v, ~ In 0%N v ->
+  tokenize (s "<a href=" ++ quoteattr v ++ s ">") = [StartTag (s "a") [(s "href", v)] false].
+Proof. exact attr_inert. Qed.
+Print Assumptions C10_attr_inert.
+
+(** ** Anchor ids *)
+Theorem C10_id_charset : forall names idx prefix i,
+  generate_subrecipe_output_id names idx prefix = Ok i ->
+  exists n, i = prefix ++ n /\ Forall (fun c => id_char_ok c = true) n.
+Proof. exact id_charset. Qed.
+Print Assumptions C10_id_charset.
+
+(** ** Site templates *)
+(** Every [{{ ... }}] of every template (list generated with Jinja's lexer) is
+    either one of the three pre-rendered HTML fragments marked [|safe] (body,
+    description, welcome_message) or an unfiltered interpolation in an autoescaped template, in
+    text or inside a double-quoted attribute value. *)
+Theorem C10_template_sinks : forall k, In k template_sinks ->
+  (In (s "safe") (sk_filters k) /\ In (sk_expr k) prerendered) \/
+  (sk_autoescape k = true /\ sk_filters k = [] /\ (sk_ctx k = CtxText \/ sk_ctx k = CtxAttrDq)).
+Proof. exact template_sinks_ok. Qed.
+Print Assumptions C10_template_sinks.
+
+(** ... and what autoescape applies (markupsafe.escape) is inert in both contexts. *)
+Theorem C10_markup_escape_inert :
+  (forall x acc rest, run (SData acc) (markup_escape x ++ rest) = run (SData (acc ++ x)) rest) /\
+  (forall tag attrs an v, ~ In 0%N v -> forall acc rest,
+     run (SAttrValue true tag attrs an acc) (markup_escape v ++ rest)
+     = run (SAttrValue true tag attrs an (acc ++ v)) rest) /\
+  markup_escape (s "&<>""'a") = markupsafe_probe.
+Proof. exact (conj markup_inert_text (conj markup_inert_attr markup_probe)). Qed.
+Print Assumptions C10_markup_escape_inert.
+
+(** ** Non-vacuity *)
 Example C10_ex_tokenize :
   tokenize (s "<td class=""a"">x &amp; y</td>") =
   [StartTag (s "td") [(s "class", s "a")] false; Text (s "x & y"); EndTag (s "td")].
 Proof. vm_compute. reflexivity. Qed.
-Print Assumptions C10_ex_tokenize.
+
+Example C10_ex_escape :
+  html_escape (s "<b>""R&D""</b>'") = s "&lt;b&gt;&quot;R&amp;D&quot;&lt;/b&gt;&#x27;" /\
+  quoteattr (s "a""b") = s "'a""b'" /\ quoteattr (s "a""b'") = s """a&quot;b'""" /\
+  tokenize (s "<b>x</b>") <> tokenize (html_escape (s "<b>x</b>")).
+Proof. vm_compute. repeat split; try reflexivity. discriminate. Qed.
+
+Example C10_ex_sinks : List.length template_sinks = 20%nat /\
+  existsb (fun k => match sk_ctx k with CtxAttrDq => true | _ => false end) template_sinks = true.
+Proof. vm_compute. split; reflexivity. Qed.
+
+Example C10_ex_id :
+  generate_subrecipe_output_id [[PStr (s "a <b> & ""c"" "); PNum (NFrac 3%Z 2%positive)]] 0%nat (s "recipe-")
+  = Ok (s "recipe-a--b-----c--1-1-2").
+Proof. vm_compute. reflexivity. Qed.
